@@ -274,8 +274,10 @@ pub fn c10_w_write_two_run_together() {
     two::<K_SHORT, 2>(true)
 }
 
-/// (R1): reuse of an existing file with an arbitrary (possibly torn) tail. `WRITE`: also perform the
-/// first `write_event` (otherwise that step is the (W1) harness from the state asserted here).
+/// (R1): reuse of an existing file with an arbitrary (possibly torn) tail. With `WRITE` the first
+/// `write_event` is performed as well; that combined harness does not fit (CBMC out of memory at 10 GB after
+/// 450 s) and is not registered: the first write after a reuse is the (W1) step harness started from the
+/// state asserted here (`needs_recovery = true`, `size = len`), which (W1) covers (arbitrary flags/size).
 #[cfg(kani)]
 fn reuse<const KIND: u8, const WRITE: bool>(twin: bool) -> (bool, usize, u8, bool) {
     let (mut opened, mut wrote, mut torn) = (false, 0u8, false);
@@ -326,15 +328,6 @@ pub fn c10_q_open_reuse() {
     let (opened, old_n, _, _) = reuse::<K_ERR, false>(false);
     kani::cover!(opened && old_n == 2, "reused a non-empty file");
     kani::cover!(!opened && st().faulted, "open for reuse failed");
-}
-
-#[cfg(kani)]
-#[kani::proof]
-#[kani::unwind(6)]
-pub fn c10_t_open_reuse_write() {
-    let (opened, old_n, wrote, torn) = reuse::<K_SHORT, true>(false);
-    kani::cover!(opened && wrote == 2, "reuse then complete write");
-    kani::cover!(opened && torn, "reuse then torn write");
 }
 
 /// Mutant twin: claims a reused file is clean - must FAIL.
